@@ -373,3 +373,14 @@ def run(facts, rep, ctx):
     from . import round6
     round6.cf2(facts, rep, ['data_structures::qgram_index::', 'alignment::sparse::'], 60)
     round6.sb12(facts, rep)
+
+
+_run_before_round7 = run
+
+
+def run(facts, rep, ctx):
+    """rules added in the sixth seeding round (rules/round7.py)"""
+    _run_before_round7(facts, rep, ctx)
+    if ctx.get('flavor') != 'nochk':
+        from . import round7
+        round7.po11(facts, rep)
